@@ -28,6 +28,9 @@ static mut LOG_FD: i32 = -1;
 static mut SIG_MODE: [i32; 65] = [0; 65];
 static mut SIG_CODE: [i32; 65] = [0; 65];
 static mut SIG_DELAY_MS: [u32; 65] = [0; 65];
+// mode 3: on the signal, write this buffer to stdout, then exit(code)
+static mut SIG_WBUF: *const u8 = std::ptr::null();
+static mut SIG_WLEN: usize = 0;
 
 fn now_ns() -> u128 {
     let mut ts = [0i64; 2];
@@ -67,6 +70,12 @@ extern "C" fn on_signal(sig: i32) {
     raw_log(b"sig", sig as u128);
     unsafe {
         let s = sig as usize;
+        if s < 65 && SIG_MODE[s] == 3 {
+            let mut off = 0usize;
+            while off < SIG_WLEN { let n = write(1, SIG_WBUF.add(off), SIG_WLEN - off); if n <= 0 { break; } off += n as usize; }
+            raw_log(b"end-exit", SIG_CODE[s] as u128);
+            _exit(SIG_CODE[s]);
+        }
         if s < 65 && SIG_MODE[s] == 2 {
             let d = SIG_DELAY_MS[s];
             if d > 0 { usleep(d * 1000); }
@@ -165,6 +174,12 @@ fn run_actions(actions: &[String]) -> ! {
             "ignore" => { let s: usize = f[1].parse().unwrap_or(15); unsafe { SIG_MODE[s] = 1; signal(s as i32, on_signal as *const () as usize); } }
             // onsig:<sig>:<exit code>:<delay ms>
             "onsig" => { let s: usize = f[1].parse().unwrap_or(15); unsafe { SIG_MODE[s] = 2; SIG_CODE[s] = f[2].parse().unwrap_or(0); SIG_DELAY_MS[s] = f[3].parse().unwrap_or(0); signal(s as i32, on_signal as *const () as usize); } }
+            // onsigw:<sig>:<exit code>:<tag>:<len>: on the signal write the pattern to stdout, then exit
+            "onsigw" => {
+                let s: usize = f[1].parse().unwrap_or(15); let tag: u64 = f[3].parse().unwrap_or(0); let len: usize = f[4].parse().unwrap_or(0);
+                let data: &'static [u8] = Box::leak(pattern(tag, len, "bin").into_boxed_slice());
+                unsafe { SIG_WBUF = data.as_ptr(); SIG_WLEN = data.len(); SIG_MODE[s] = 3; SIG_CODE[s] = f[2].parse().unwrap_or(0); signal(s as i32, on_signal as *const () as usize); }
+            }
             // child:<hold ms>:<new session 0|1>: a descendant that keeps stdout/stderr open
             "child" => {
                 let hold: u64 = f[1].parse().unwrap_or(0);
